@@ -193,8 +193,13 @@ def decode_history_op(r, nkeys, nhandlers):
     if op == 'pop':
         return {'op': op, 'on': on, 'k': k, 'default': flag}
     if op == 'update':
+        if flag and how in (1, 2) and items:
+            # the argument fails part-way: a generator of pairs that raises after its items, or a malformed last pair
+            return {'op': op, 'on': on, 'items': items, 'how': ['', 'failing_gen', 'bad_pair'][how]}
         return {'op': op, 'on': on, 'items': items, 'how': ['dict', 'pairs', 'kwargs', 'handlers'][how]}
     if op == 'ior':
+        if flag and how == 1 and items:
+            return {'op': op, 'on': on, 'items': items, 'how': 'failing_gen'}
         return {'op': op, 'on': on, 'items': items, 'how': ['dict', 'pairs', 'handlers', 'dict'][how]}
     if op == 'or':
         return {'op': op, 'on': on, 'items': items, 'to': 'B' if flag else 'A'}
